@@ -9,7 +9,7 @@ use crate::wire;
 use crate::world::{CloseKind, Cond, DynFn, Opts, Outcome, Scenario, Step};
 use std::sync::Arc;
 
-pub const CONFIGS: &[&str] = &["cleartext", "trust", "authquery", "authquery-absent", "authquery-late", "authquery-changed"];
+pub const CONFIGS: &[&str] = &["cleartext", "trust", "authquery", "authquery-absent", "authquery-late", "authquery-changed", "authquery-two"];
 pub const STARTUPS: &[(&str, &str, &str)] = &[
     ("alice@db", "alice", "db"),
     ("bob@db", "bob", "db"),
@@ -33,6 +33,8 @@ fn real_password(cfgname: &str, user: &str) -> Option<&'static str> {
         ("trust", "alice") => Some("alicepw"),
         ("authquery", "alice") | ("authquery-late", "alice") => Some("alicepw"),
         ("authquery-changed", "alice") => Some("newpw"),
+        ("authquery-two", "alice") => Some("alicepw"),
+        ("authquery-two", "bob") => Some("bobpw"),
         _ => None,
     }
 }
@@ -119,6 +121,10 @@ pub fn scenario(cfgname: &str, startup: (&str, &str, &str), variant: &str, admin
         }
         _ => {
             pool.users[0].password = None;
+            if cfgname == "authquery-two" {
+                // two users without a configured password: each has its own hash on the server
+                pool.users.push(UserCfg { username: "bob".into(), password: None, pool_size: 2, extra: String::new() });
+            }
             cfg = Cfg::one(pool);
             cfg.general_extra = "auth_query = \"SELECT usename, passwd FROM pg_shadow WHERE usename='$1'\"\nauth_query_user = \"authuser\"\nauth_query_password = \"authpw\"\n".into();
             cfg.connect_timeout = 1000;
@@ -129,6 +135,10 @@ pub fn scenario(cfgname: &str, startup: (&str, &str, &str), variant: &str, admin
     match cfgname {
         "authquery" | "authquery-late" | "authquery-changed" => {
             servers[0].shadow.insert("alice".into(), md5("alicepw", "alice"));
+        }
+        "authquery-two" => {
+            servers[0].shadow.insert("alice".into(), md5("alicepw", "alice"));
+            servers[0].shadow.insert("bob".into(), md5("bobpw", "bob"));
         }
         _ => {}
     }
@@ -191,7 +201,7 @@ fn must_admit(cfgname: &str, user: &str, db: &str, variant: &str, admin_only: bo
     if admin_only {
         return Some(false);
     }
-    let configured = pool_name == "db" && (user == "alice" || (user == "bob" && cfgname == "cleartext"));
+    let configured = pool_name == "db" && (user == "alice" || (user == "bob" && (cfgname == "cleartext" || cfgname == "authquery-two")));
     if !configured {
         return Some(false);
     }
@@ -311,7 +321,7 @@ pub fn build(tier: &str) -> SimCheck {
                 for admin_only in [false, true] {
                     if !thorough {
                         // quick: full variant list for the interesting startups, a reduced list elsewhere
-                        let key = st.0 == "alice@db" || st.0 == "admin@pgcat";
+                        let key = st.0 == "alice@db" || st.0 == "admin@pgcat" || (*cfgname == "authquery-two" && st.0 == "bob@db");
                         if !key && !["correct", "wrong", "query-instead", "nothing"].contains(variant) {
                             continue;
                         }
@@ -330,7 +340,7 @@ pub fn build(tier: &str) -> SimCheck {
         oracle: Box::new(oracle),
         bound: 0,
         limits: Limits { max_wall_s: if thorough { 1500.0 } else { 50.0 }, ..Default::default() },
-        rule: "scenario = auth configuration (cleartext, trust, auth_query with hash present / absent / server down at pool creation / changed later) x startup (db,user) pair (configured, other user, unknown user/db, admin db in two spellings, non-admin user on the admin db, user only) x message sent in place of PasswordMessage (18 kinds incl. replayed salt, truncated, oversized, wrong type) followed at once by a tagged query x shutting down or not; verdict compared with the reference admission predicate; plus 96 connections opened up to the MD5 challenge: no salt issued twice".into(),
+        rule: "scenario = auth configuration (cleartext, trust, auth_query with hash present / absent / server down at pool creation / changed later / two users each with a hash of its own) x startup (db,user) pair (configured, other user, unknown user/db, admin db in two spellings, non-admin user on the admin db, user only) x message sent in place of PasswordMessage (18 kinds incl. replayed salt, truncated, oversized, wrong type) followed at once by a tagged query x shutting down or not; verdict compared with the reference admission predicate; plus 96 connections opened up to the MD5 challenge: no salt issued twice".into(),
         assumptions: vec!["TLS startup not exercised".into()],
     }
 }
